@@ -181,6 +181,14 @@ impl SeenTracker {
             },
         }
     }
+    /// Stronger: strictly inside the window relative to the newest stamp seen from *any*
+    /// origin (what "every operation arrives within an hour of its timestamp" means for
+    /// one replica when clocks agree).
+    pub fn is_globally_timely(&self, ts: HLCTimestamp) -> bool {
+        self.newest
+            .values()
+            .all(|max| ts.datacake_timestamp() + HOUR > max.datacake_timestamp())
+    }
     pub fn observe(&mut self, ts: HLCTimestamp) {
         let e = self.newest.entry(ts.node()).or_insert(ts);
         if ts > *e {
